@@ -430,7 +430,7 @@ class KafkaCodec(object):
                 raise ProtocolError("Unsupported codec 0b{:b}".format(codec))
 
         def v1(data, offset, cur):
-            (timestamp, cur) = relative_unpack(">q", data, cur)
+            ((timestamp,), cur) = relative_unpack(">q", data, cur)
             (key, cur) = read_int_string(data, cur)
             (value, cur) = read_int_string(data, cur)
 
